@@ -478,9 +478,14 @@ mod oracle {
             if a != b || a != c {
                 witness(format!("{{\"oracle\":\"c07\",\"seed\":{seed},\"what\":\"seeded MH run is not reproducible across repetitions / thread-pool sizes\"}}"));
             }
-            let mut other = MetropolisHastings::new(Flat, IsotropicGaussian::<f64>::new(1.0), vec![vec![0.0, 0.0]; 4]).seed(seed.wrapping_add(12345));
-            if other.run(6, 2).unwrap() == a {
-                witness(format!("{{\"oracle\":\"c07\",\"seed\":{seed},\"what\":\"a different seed gave identical output\"}}"));
+            for other_seed in [seed.wrapping_add(12345), seed ^ (1u64 << 63), seed ^ (1u64 << 62), seed ^ 1, seed.wrapping_add(4), seed.wrapping_mul(2).wrapping_add(7)] {
+                if other_seed == seed {
+                    continue;
+                }
+                let mut other = MetropolisHastings::new(Flat, IsotropicGaussian::<f64>::new(1.0), vec![vec![0.0, 0.0]; 4]).seed(other_seed);
+                if other.run(6, 2).unwrap() == a {
+                    witness(format!("{{\"oracle\":\"c07\",\"seed\":{seed},\"other_seed\":{other_seed},\"what\":\"two different seeds gave bit-identical output\"}}"));
+                }
             }
         }
     }
@@ -527,6 +532,142 @@ mod oracle {
                         for j in 0..n {
                             if SmallRng::seed_from_u64(last[i].unwrap()) == mh.chains[j].rng {
                                 witness(format!("{{\"oracle\":\"c08\",{ctx},\"what\":\"proposal generator of chain {i} is seeded like the acceptance generator of chain {j}\"}}"));
+                            }
+                        }
+                    }
+                }
+            }
+        }
+    }
+
+    // ---------------------------------------------------------------- HMC / NUTS (C08, C09) ----
+    mod tensor_samplers {
+        use super::*;
+        use burn::backend::{Autodiff, NdArray};
+        use burn::tensor::Tensor;
+        use mini_mcmc::distributions::DiffableGaussian2D;
+        use mini_mcmc::hmc::HMC;
+        use mini_mcmc::nuts::{NUTSChain, NUTS};
+        type B = Autodiff<NdArray>;
+        fn target() -> DiffableGaussian2D<f32> {
+            DiffableGaussian2D::new([0.0f32, 1.0], [[4.0, 2.0], [2.0, 3.0]])
+        }
+        fn to_vec3(t: Tensor<B, 3>) -> (Vec<f32>, [usize; 3]) {
+            let d = t.dims();
+            (t.to_data().to_vec::<f32>().unwrap(), d)
+        }
+        #[test]
+        fn oracle_c09_hmc_run_rows_order_continuation() {
+            for (n_chains, n_collect, n_discard) in [(1usize, 3usize, 0usize), (2, 2, 1), (3, 3, 2), (2, 5, 0), (4, 4, 1), (3, 1, 3)] {
+                let init: Vec<Vec<f32>> = (0..n_chains).map(|c| vec![10.0 * c as f32, -5.0 * c as f32]).collect();
+                let mk = || HMC::<f32, B, _>::new(target(), init.clone(), 0.05, 3).set_seed(99);
+                let (out, dims) = to_vec3(mk().run(n_collect, n_discard));
+                let ctx = format!("\"n_chains\":{n_chains},\"n_collect\":{n_collect},\"n_discard\":{n_discard}");
+                if dims != [n_chains, n_collect, 2] {
+                    witness(format!("{{\"oracle\":\"c09\",\"sampler\":\"hmc\",{ctx},\"what\":\"shape {dims:?}\"}}"));
+                }
+                // the same sampler stepped by hand
+                let mut manual = mk();
+                for _ in 0..n_discard {
+                    manual.step();
+                }
+                for k in 0..n_collect {
+                    manual.step();
+                    let pos = manual.positions.to_data().to_vec::<f32>().unwrap();
+                    for c in 0..n_chains {
+                        for j in 0..2 {
+                            let got = out[(c * n_collect + k) * 2 + j];
+                            if got != pos[c * 2 + j] {
+                                witness(format!("{{\"oracle\":\"c09\",\"sampler\":\"hmc\",{ctx},\"what\":\"entry [{c},{k},{j}] = {got} but chain {c} is at {} after {} transitions\"}}", pos[c * 2 + j], n_discard + k + 1));
+                            }
+                        }
+                    }
+                }
+                // continuation
+                let mut two = mk();
+                let _ = two.run(n_collect, n_discard);
+                let (b, _) = to_vec3(two.run(2, 0));
+                manual.step();
+                let pos = manual.positions.to_data().to_vec::<f32>().unwrap();
+                for c in 0..n_chains {
+                    if b[(c * 2) * 2] != pos[c * 2] {
+                        witness(format!("{{\"oracle\":\"c09\",\"sampler\":\"hmc\",{ctx},\"what\":\"a following run does not start from the last returned state (chain {c})\"}}"));
+                    }
+                }
+            }
+        }
+        #[test]
+        fn oracle_c09_nuts_run_rows_and_final_state() {
+            for seed in 0..6u64 {
+                for (n_collect, n_discard) in [(1usize, 0usize), (3, 0), (2, 2), (4, 1)] {
+                    let mk = || NUTSChain::<f32, B, _>::new(target(), vec![0.3f32, -0.2], 0.8).set_seed(seed);
+                    let mut ch = mk();
+                    let start = ch.position.to_data().to_vec::<f32>().unwrap();
+                    let out = ch.run(n_collect, n_discard);
+                    let dims = out.dims();
+                    let rows = out.to_data().to_vec::<f32>().unwrap();
+                    let ctx = format!("\"seed\":{seed},\"n_collect\":{n_collect},\"n_discard\":{n_discard}");
+                    if dims != [n_collect, 2] {
+                        witness(format!("{{\"oracle\":\"c09\",\"sampler\":\"nuts\",{ctx},\"what\":\"shape {dims:?}\"}}"));
+                    }
+                    let end = ch.position.to_data().to_vec::<f32>().unwrap();
+                    if end[..] != rows[(n_collect - 1) * 2..] {
+                        witness(format!("{{\"oracle\":\"c09\",\"sampler\":\"nuts\",{ctx},\"what\":\"the chain is left at {end:?}, not at the last returned state {:?}\"}}", &rows[(n_collect - 1) * 2..]));
+                    }
+                    if n_discard == 0 && rows[..2] != start[..] {
+                        witness(format!("{{\"oracle\":\"c09\",\"sampler\":\"nuts\",{ctx},\"what\":\"with no warm-up the first kept draw must be the current state\"}}"));
+                    }
+                    // the same chain stepped by hand: n_discard + k transitions before entry k
+                    let mut manual = mk();
+                    let _ = manual.run(1, 0); // initialises the step size exactly as run() does, performs no transition
+                    let mut manual2 = mk();
+                    let first = manual2.run(1, 0).to_data().to_vec::<f32>().unwrap();
+                    if first[..] != start[..] || manual2.position.to_data().to_vec::<f32>().unwrap()[..] != start[..] {
+                        witness(format!("{{\"oracle\":\"c09\",\"sampler\":\"nuts\",{ctx},\"what\":\"run(1,0) must return the current state and perform no transition\"}}"));
+                    }
+                }
+            }
+            // the multi-chain runner returns exactly what its chains return individually
+            let init = vec![vec![0.0f32, 0.0], vec![1.0, 1.0], vec![-1.0, 2.0]];
+            let mut s = NUTS::<f32, B, _>::new(target(), init.clone(), 0.8).set_seed(5);
+            let (all, dims) = to_vec3(s.run(3, 2));
+            if dims != [3, 3, 2] {
+                witness(format!("{{\"oracle\":\"c09\",\"sampler\":\"nuts\",\"what\":\"runner shape {dims:?}\"}}"));
+            }
+            for (c, pos) in init.iter().enumerate() {
+                let mut ch = NUTSChain::<f32, B, _>::new(target(), pos.clone(), 0.8).set_seed(5 + c as u64 + 1);
+                let rows = ch.run(3, 2).to_data().to_vec::<f32>().unwrap();
+                if rows[..] != all[c * 6..(c + 1) * 6] {
+                    witness(format!("{{\"oracle\":\"c09\",\"sampler\":\"nuts\",\"what\":\"row {c} of the runner differs from chain {c} run on its own\"}}"));
+                }
+            }
+        }
+        #[test]
+        fn oracle_c08_nuts_and_hmc_chains_use_distinct_streams() {
+            // identical start states: trajectories must differ between chains, seeded or not
+            for seeded in [false, true] {
+                for n in [2usize, 3, 5] {
+                    let mut s = NUTS::<f32, B, _>::new(target(), vec![vec![0.1f32, 0.2]; n], 0.8);
+                    if seeded {
+                        s = s.set_seed(17);
+                    }
+                    let (all, _) = to_vec3(s.run(4, 0));
+                    for a in 0..n {
+                        for b in 0..a {
+                            if all[a * 8..(a + 1) * 8] == all[b * 8..(b + 1) * 8] {
+                                witness(format!("{{\"oracle\":\"c08\",\"sampler\":\"nuts\",\"seeded\":{seeded},\"chains\":{n},\"what\":\"chains {b} and {a} started identically follow identical trajectories (shared random stream)\"}}"));
+                            }
+                        }
+                    }
+                    let mut h = HMC::<f32, B, _>::new(target(), vec![vec![0.1f32, 0.2]; n], 0.1, 3);
+                    if seeded {
+                        h = h.set_seed(17);
+                    }
+                    let (all, _) = to_vec3(h.run(4, 0));
+                    for a in 0..n {
+                        for b in 0..a {
+                            if all[a * 8..(a + 1) * 8] == all[b * 8..(b + 1) * 8] {
+                                witness(format!("{{\"oracle\":\"c08\",\"sampler\":\"hmc\",\"seeded\":{seeded},\"chains\":{n},\"what\":\"rows {b} and {a} started identically follow identical trajectories (shared momenta / acceptance draws)\"}}"));
                             }
                         }
                     }
@@ -662,12 +803,33 @@ mod oracle {
 
     // ---------------------------------------------------------------- C11 ------------
     #[test]
+    fn oracle_c11_summary_of_finite_diagnostics() {
+        use mini_mcmc::stats::basic_stats;
+        let cases: Vec<Vec<f32>> = vec![
+            vec![1.0], vec![2.0, 1.0], vec![1.0, 3.0, 2.0], vec![-1.0, 5.0, 0.5, -7.25], vec![388.67, -400.0], vec![0.0, -0.0, 1.0, -1.0, 2.5],
+            (0..33).map(|i| ((i * 37) % 17) as f32 - 8.0).collect(), (0..64).map(|i| (i as f32 - 20.0) * 1.5).collect(), vec![1e-20, -1e-20, 3e20, -3e20, 7.0],
+        ];
+        for data in cases {
+            let st = basic_stats("x", ndarray::Array1::from_vec(data.clone()));
+            let mut sorted = data.clone();
+            sorted.sort_by(|a, b| a.partial_cmp(b).unwrap());
+            let n = sorted.len();
+            let (min, max) = (sorted[0], sorted[n - 1]);
+            let mean = data.iter().map(|x| *x as f64).sum::<f64>() / n as f64;
+            let med_ok = st.median == sorted[n / 2] || st.median == sorted[(n - 1) / 2] || st.median == sorted[n - 1 - n / 2];
+            let scale = data.iter().fold(0.0f32, |m, x| m.max(x.abs())).max(1e-30) as f64;
+            if st.min != min || st.max != max || !med_ok || !((st.mean as f64 - mean).abs() <= 1e-5 * scale) {
+                witness(format!("{{\"oracle\":\"c11\",\"data\":{data:?},\"what\":\"summary min {} max {} median {} mean {} but the data have min {min} max {max} middle order statistic {} mean {mean}\"}}", st.min, st.max, st.median, st.mean, sorted[n / 2]));
+            }
+        }
+    }
+    #[test]
     fn oracle_c11_split_rhat_grid() {
         use mini_mcmc::stats::split_rhat_mean_ess;
         for n_chains in [1usize, 2, 3, 5] {
             for n in [4usize, 5, 9, 40, 101] {
                 for n_params in [1usize, 2, 3] {
-                    for (shift, scale) in [(0.0f64, 1.0f64), (3.0, 1.0), (50.0, 0.01), (-7.0, 20.0)] {
+                    for (shift, scale) in [(0.0f64, 1.0f64), (3.0, 1.0), (50.0, 0.01), (-7.0, 20.0), (0.0, 1e-4), (0.5, 1e-5), (2.0, 1e4), (400.0, 1.0)] {
                         let val = |c: usize, t: usize, p: usize| -> f64 {
                             (((t * 7 + c * 3 + p * 5) % 11) as f64 * 0.5 + shift * (c as f64) * (p as f64 + 1.0) + 0.01 * (t as f64) * (p as f64)) * scale
                         };
@@ -677,7 +839,9 @@ mod oracle {
                             let chains: Vec<Vec<f64>> = (0..n_chains).map(|c| (0..n).map(|t| (val(c, t, p) as f32) as f64).collect()).collect();
                             let want = reference_split_rhat(&chains);
                             let got = rhat[p] as f64;
-                            if !((got - want).abs() <= 2e-3 * want.abs()) {
+                            // wide separations lose f32 digits in any implementation: a looser (still tight) tolerance there
+                            let tol = if shift.abs() >= 100.0 { 3e-2 } else { 2e-3 };
+                            if !((got - want).abs() <= tol * want.abs()) {
                                 witness(format!("{{\"oracle\":\"c11\",\"chains\":{n_chains},\"draws\":{n},\"params\":{n_params},\"param\":{p},\"shift\":{shift},\"scale\":{scale},\"got\":{got},\"want\":{want}}}"));
                             }
                         }
